@@ -99,18 +99,18 @@ import "github.com/plgd-dev/go-coap/v3/message"
 //
 // ---- C01: decode(encode(m)) == m for every well-formed message (stream framing) --------------------
 //
-// Proved here: the frame is accepted, fully consumed, code/token/payload and the NUMBER of options
-// come back. The per-option equality (IDs, values) is proved for the datagram coder (udp/coder), which
-// shares Options.Marshal / Options.Unmarshal; for the stream coder that last composition step did not
-// discharge within the time limit and is not claimed.
-//
 //@ spec wfMsgT(m message.Message) bool = len(m.Token) <= 8 && m.Code <= 255 && wfOptions(m.Options) && legalOpts(m.Options, tcpDefs(m.Code)) && len(m.Payload) < 2000000000 && len(m.Options) <= 1000
 //@ spec isEncT(data []byte, m message.Message) bool = len(data) == tcpSize(m) && 0 <= encLen(m.Options, len(m.Options)) && encLen(m.Options, len(m.Options)) <= 65809 * len(m.Options) && data[0] == 16*lenNib(tcpBody(m)) + len(m.Token) && data[0] % 16 == len(m.Token) && hdrLen(data) == 1 + extLen(tcpBody(m)) + len(m.Token) + 1 && bodyLen(data) == tcpBody(m) && data[1 + extLen(tcpBody(m))] == m.Code && data[1 + extBytesOf(data[0] / 16)] == m.Code && bytesEq(data[1 + extLen(tcpBody(m)) + 1 : 1 + extLen(tcpBody(m)) + 1 + len(m.Token)], m.Token) && optsAtNow(data[1 + extLen(tcpBody(m)) + len(m.Token) + 1 : ], m.Options) && (len(m.Payload) > 0 ==> data[len(data) - len(m.Payload) - 1] == 255 && bytesEq(data[len(data) - len(m.Payload) : ], m.Payload))
+//
+// Proved for the stream coder: the frame is accepted and fully consumed, code, token and payload and
+// the NUMBER of options come back. The per-option equality (IDs, values) is proved for the datagram
+// coder (udp/coder), which shares Options.Marshal / Options.Unmarshal and the lemmas; for the stream
+// coder that last composition step did not discharge robustly and is not claimed.
 //
 //@ func VerifDecodeEncoded(data []byte, m message.Message, out *message.Message) (n2 int, e2 error)
 //@   requires wfMsgT(m) && isEncT(data, m)
 //@   requires out != nil && len(out.Options) == 0 && cap(out.Options) >= len(m.Options) && out.Payload == nil
-//@   requires disjoint(m.Options, out.Options[0 : cap(out.Options)])
+//@   requires distinctObjects(m.Options, out.Options)
 //@   modifies out.Options, out.Options[0 : cap(out.Options)], out.Payload, out.Code, out.Token
 //@   apply VerifParseOfEncoding(data[hdrLen(data) : ], m.Options, tcpDefs(data[1 + extBytesOf(data[0] / 16)]))
 //@   ensures [decodes] e2 == nil && n2 == len(data)
@@ -130,7 +130,7 @@ func VerifDecodeEncoded(data []byte, m message.Message, out *message.Message) (n
 //@ func VerifRoundTrip(m message.Message, buf []byte, out *message.Message) (n int, e1 error, n2 int, e2 error)
 //@   requires wfMsgT(m) && srcDisjoint(buf, m) && len(buf) >= tcpSize(m)
 //@   requires out != nil && len(out.Options) == 0 && cap(out.Options) >= len(m.Options) && out.Payload == nil
-//@   requires disjoint(m.Options, out.Options[0 : cap(out.Options)])
+//@   requires distinctObjects(m.Options, out.Options)
 //@   modifies buf[0 : len(buf)], out.Options, out.Options[0 : cap(out.Options)], out.Payload, out.Code, out.Token
 //@   ensures [encodes] e1 == nil && n == old(tcpSize(m))
 //@   ensures [decodes] e2 == nil && n2 == n
